@@ -175,7 +175,7 @@ def lockValidate (m : PegMsg) : Bool :=
 /-- `MsgBurn.ValidateBasic` -/
 def burnValidate (m : PegMsg) : Bool :=
   decide (m.chain ≠ 0) && isHexAddress m.receiver && decide (0 < m.amount) &&
-    decide (peggedPrefix.length + 1 < m.symbol.length) && m.symbol.startsWith peggedPrefix &&
+    decide (peggedPrefix.length + 1 < m.symbol.length) && peggedPrefix.toList.isPrefixOf m.symbol.toList &&
     decide ((BridgeConsts.burnGasCost : Int) ≤ m.ceth)
 
 /-- `IsBlacklisted` -/
